@@ -31,7 +31,7 @@ def detect(seed):
         props = set()
         for o in json.loads(out):
             if o['status'] not in ('discharged',) and o['key'] not in KNOWN:
-                props.update(RP.get(o['rule'], []))
+                props.update(o.get('reported_props', []) if o.get('two_view') else RP.get(o['rule'], []))
         return seed, sorted(props)
     finally:
         shutil.rmtree(sc, ignore_errors=True)
